@@ -3,7 +3,13 @@
    sequential decode), the canonical JSON text of a store value, and what a
    handler outcome is expected to look like to the client.  No proofs here. *)
 From GoRes Require Export Codec.Model.
+From Coq Require Import String.
 Open Scope N_scope.
+
+Definition n_rid : bytes := s2b "rid".
+Definition n_soft : bytes := s2b "soft".
+Definition n_action : bytes := s2b "action".
+Definition n_data : bytes := s2b "data".
 
 (* the protocol table, independent of the model's fold: decided on the member list by lookups *)
 Definition last_member (name : bytes) (ms : list (bytes * bytes * json)) : option (bytes * json) :=
@@ -14,16 +20,16 @@ Definition last_member (name : bytes) (ms : list (bytes * bytes * json)) : optio
 Definition spec_string_field (name : bytes) (ms : list (bytes * bytes * json)) : option bytes :=
   match last_member name ms with Some (_, JStr s) => Some s | _ => None end.
 Definition spec_soft (ms : list (bytes * bytes * json)) : bool :=
-  match find (fun m => key_is [115;111;102;116] (fst (fst m)) && negb (json_eqb (snd m) JNull)) (rev ms) with
+  match find (fun m => key_is n_soft (fst (fst m)) && negb (json_eqb (snd m) JNull)) (rev ms) with
   | Some m => json_eqb (snd m) (JBool true)
   | None => false
   end.
 Definition spec_types_ok (ms : list (bytes * bytes * json)) : bool :=
   forallb (fun m =>
     let k := fst (fst m) in let j := snd m in
-    if key_is [114;105;100] k || key_is [97;99;116;105;111;110] k
+    if key_is n_rid k || key_is n_action k
     then match j with JStr _ | JNull => true | _ => false end
-    else if key_is [115;111;102;116] k then match j with JBool _ | JNull => true | _ => false end
+    else if key_is n_soft k then match j with JBool _ | JNull => true | _ => false end
     else true) ms.
 Definition classify_table (data : bytes) (v : view) : outcome value :=
   match v with
@@ -32,14 +38,14 @@ Definition classify_table (data : bytes) (v : view) : outcome value :=
   | VObj ms =>
     if negb (spec_types_ok ms) then Err
     else
-      let data_m := last_member [100;97;116;97] ms in
-      match spec_string_field [114;105;100] ms with
+      let data_m := last_member n_data ms in
+      match spec_string_field n_rid ms with
       | Some rid =>
-        if isSome (spec_string_field [97;99;116;105;111;110] ms) || isSome data_m || is_nil rid
+        if isSome (spec_string_field n_action ms) || isSome data_m || is_nil rid
            || negb (is_valid_rid rid) then Err
         else Ok (MkValue data (if spec_soft ms then TSoft else TRef) rid [])
       | None =>
-        match spec_string_field [97;99;116;105;111;110] ms with
+        match spec_string_field n_action ms with
         | Some a => if isSome data_m || negb (beq a action_delete) then Err else Ok (MkValue data TDelete [] [])
         | None =>
           match data_m with
@@ -56,12 +62,12 @@ Definition classify_table (data : bytes) (v : view) : outcome value :=
 Definition unwrap (o : outcome bytes) : bytes := match o with Ok b => b | _ => [] end.
 Definition canon_text (a : value) : bytes :=
   match v_type a with
-  | TNone => [110; 117; 108; 108]
+  | TNone => s2b "null"
   | TPrim => v_raw a
   | TRef => unwrap (ref_marshal (v_rid a))
   | TSoft => unwrap (softref_marshal (v_rid a))
   | TData => data_prefix ++ v_inner a ++ [125]
-  | TDelete => [123; 34; 97; 99; 116; 105; 111; 110; 34; 58; 34; 100; 101; 108; 101; 116; 101; 34; 125]
+  | TDelete => s2b "{""action"":""delete""}"
   end.
 
 (* which of result / resource / error the handler's outcome calls for *)
@@ -82,10 +88,14 @@ Definition expected_class (h : handler_outcome) : rclass :=
 (* the error a handler outcome supplies; None where the text comes from elsewhere *)
 Definition norm_data (d : option json) : option json := match d with Some JNull => None | _ => d end.
 Definition norm_err (e : rerror) : rerror := MkErr (e_code e) (e_msg e) (norm_data (e_data e)).
+(* what ParseResult(&v) leaves in v: JSON null leaves it untouched *)
+Definition supplied_result (r : option json) : option json :=
+  match r with Some JNull => None | _ => r end.
 Definition supplied_error (h : handler_outcome) : option rerror :=
   match h with
-  | HResource rid => if is_valid_rid rid then None else Some (internal_error ([114;101;115;58;32;105;110;118;97;108;105;100;32;114;101;115;111;117;114;99;101;32;73;68;58;32] ++ rid))
+  | HResource rid => if is_valid_rid rid then None else Some (internal_error (s2b "res: invalid resource ID: " ++ rid))
   | HError (Some e) => Some (norm_err e)
+  | HError None => Some err_internal
   | HErrorOther msg => Some (internal_error msg)
   | HNotFound => Some err_not_found
   | HMethodNotFound => Some err_method_not_found
@@ -95,7 +105,25 @@ Definition supplied_error (h : handler_outcome) : option rerror :=
   | HAccessDenied => Some err_access_denied
   | HPanicError e => Some (norm_err e)
   | HPanicString msg => Some (internal_error msg)
-  | HNoReply => Some (internal_error [109;105;115;115;105;110;103;32;114;101;115;112;111;110;115;101])
+  | HNoReply => Some (internal_error (s2b "missing response"))
   | _ => None
   end.
 
+
+(* exactly one of HasResult / HasResource / HasError, and which *)
+Definition exactly_one (h : bool * bool * bool) : bool :=
+  let '(a, b, c) := h in
+  (a && negb b && negb c) || (negb a && b && negb c) || (negb a && negb b && c).
+Definition class_of (h : bool * bool * bool) : option rclass :=
+  let '(a, b, c) := h in
+  if a && negb b && negb c then Some CResult
+  else if negb a && b && negb c then Some CResource
+  else if negb a && negb b && c then Some CError else None.
+Definition has_flags (r : response) : bool * bool * bool := (has_result r, has_resource r, has_error r).
+(* the client's parse of what the service publishes for outcome h under meta m *)
+Definition client_parse (m : option rmeta) (h : handler_outcome) : response :=
+  parse_response (published m h) (view_of (published_ast m h)).
+
+(* number texts directly inside j (as a member value of an object) start like a number *)
+Definition members_num_ok (j : json) : bool :=
+  match j with JObj ms => forallb (fun kv => top_num_ok (snd kv)) ms | _ => true end.
